@@ -78,39 +78,7 @@ def run():
     guarded("rehash tail", tail)
 
     # ---- O2b: task closure: sent iff hash_fn returned Some; all members sent once
-    def task():
-        rh = prog.find(r"^(group::)?rehash$")
-        cands = [g for g in prog.fns.values() if g.name.startswith(rh.name + "::{closure#") and g.name.count("{closure#") == 3
-                 and g.ret.strip() == "()" and len(g.args) == 1 and "send" in g.text and "call" in g.text]
-        if len(cands) != 1:
-            raise Inconclusive("rehash task closure: %d candidates" % len(cands))
-        tk = cands[0]
-        span = tk.args[0][1]
-        names = oblig.capture_names(prog, span)
-        if not names or "fg" not in names:
-            raise Inconclusive("captures of the rehash task closure not identified")
-        eng = oblig.engine(prog, unroll=3)
-        engs.append(eng)
-        items = [Lazy("m0", "HashedFileInfo"), Lazy("m1", "HashedFileInfo")]
-        fields = {i: (ListV(items) if nme == "fg" else Lazy("cap_" + nme, "?")) for i, nme in enumerate(names)}
-        qs = eng.run(tk, args=[Agg(span, fields)])
-
-        def prop(q):
-            hc = [e for e in q.events if e.kind == "call" and re.search(r"Fn(Mut|Once)?(<.*>)?>::call", e.callee)]
-            snd = called(q, r"Sender::send$")
-            if len(hc) != 1 or not isinstance(hc[0].ret, Lazy):
-                return z3.BoolVal(False)
-            some = z3.BitVec(mirsym.sanitize(hc[0].ret.name + "#d"), 64) == 1
-            if q.status == "panic" and snd:
-                # `tx.send(..).unwrap()` failed: receiver gone - not a silent drop
-                return None
-            bases = sorted(getattr(e.args[1], "base", None) or getattr(e.args[1], "name", "?") for e in snd)
-            all_sent = bases == ["m0", "m1"]
-            return z3.And(z3.BoolVal(bool(snd)) == some, z3.Implies(some, z3.BoolVal(all_sent)))
-        rep.add(oblig.check_paths(eng, qs, "rehash task: members are sent iff the hash function returned Some; every path of the id-group exactly once",
-                                  prop, fn(), bounds="id-groups of 2 paths, loop unrolled 3", key="rehash:task",
-                                  allow=("return", "panic", "diverge")))
-    guarded("rehash task closure", task)
+    guarded("rehash task closure", lambda: rep.add(task_obligation(prog, engs, fn)))
 
     # ---- O2c: hash errors turn into None (never into a bogus hash)
     def errs():
@@ -153,3 +121,39 @@ def run():
                                   key="deduplicate:key"))
     guarded("deduplicate", dedup)
     return rep
+
+
+def task_obligation(prog, engs, fn, key="rehash:task"):
+    """rehash's task closure: the members of an id-group are sent iff the hash function returned Some; every member once
+    (also used by C15: a file whose hash failed is dropped alone)"""
+    rh = prog.find(r"^(group::)?rehash$")
+    cands = [g for g in prog.fns.values() if g.name.startswith(rh.name + "::{closure#") and g.name.count("{closure#") == 3
+             and g.ret.strip() == "()" and len(g.args) == 1 and "send" in g.text and "call" in g.text]
+    if len(cands) != 1:
+        raise Inconclusive("rehash task closure: %d candidates" % len(cands))
+    tk = cands[0]
+    span = tk.args[0][1]
+    names = oblig.capture_names(prog, span)
+    if not names or "fg" not in names:
+        raise Inconclusive("captures of the rehash task closure not identified")
+    eng = oblig.engine(prog, unroll=3)
+    engs.append(eng)
+    items = [Lazy("m0", "HashedFileInfo"), Lazy("m1", "HashedFileInfo")]
+    fields = {i: (ListV(items) if nme == "fg" else Lazy("cap_" + nme, "?")) for i, nme in enumerate(names)}
+    qs = eng.run(tk, args=[Agg(span, fields)])
+
+    def prop(q):
+        hc = [e for e in q.events if e.kind == "call" and re.search(r"Fn(Mut|Once)?(<.*>)?>::call", e.callee)]
+        snd = called(q, r"Sender::send$")
+        if len(hc) != 1 or not isinstance(hc[0].ret, Lazy):
+            return z3.BoolVal(False)
+        some = z3.BitVec(mirsym.sanitize(hc[0].ret.name + "#d"), 64) == 1
+        if q.status == "panic" and snd:
+            # `tx.send(..).unwrap()` failed: receiver gone - not a silent drop
+            return None
+        bases = sorted(getattr(e.args[1], "base", None) or getattr(e.args[1], "name", "?") for e in snd)
+        all_sent = bases == ["m0", "m1"]
+        return z3.And(z3.BoolVal(bool(snd)) == some, z3.Implies(some, z3.BoolVal(all_sent)))
+    return oblig.check_paths(eng, qs, "rehash task: members are sent iff the hash function returned Some; every path of the id-group exactly once",
+                             prop, fn(), bounds="id-groups of 2 paths, loop unrolled 3", key=key,
+                             allow=("return", "panic", "diverge"))
